@@ -139,10 +139,13 @@ Proof.
   - apply RM_bind; [apply Hb|intro; apply IH].
 Qed.
 
-Lemma RM_bind_macro_args ps args : RM (bind_macro_args ps args).
+Lemma RM_eval_macro_args args : RM (eval_macro_args args).
+Proof. induction args as [|a r IH]; cbn [eval_macro_args]; [apply RM_ret|]. rm. exact IH. Qed.
+
+Lemma RM_bind_macro_args ps vals : RM (bind_macro_args ps vals).
 Proof.
-  revert args. induction ps as [|[p psp] ps IH]; intros args; cbn [bind_macro_args]; [apply RM_ret|].
-  destruct args as [|a args]; [apply RM_ret|]. rm. apply IH.
+  revert vals. induction ps as [|[p psp] ps IH]; intros vals; cbn [bind_macro_args]; [apply RM_ret|].
+  destruct vals as [|v vals]; [apply RM_ret|]. rm. apply IH.
 Qed.
 
 Lemma RM_emit_data_values size vs : RM (emit_data_values size vs).
@@ -201,13 +204,14 @@ Proof.
     apply RM_bind; [apply RM_get|intro c]. destruct (query_all (symbols c) (current_scope_nx c) [id]); [|apply RM_abort].
     destruct (find_macro (symbols c) l) as [[[sp params] body]|]; [|rm].
     destruct (negb (length args =? length params)%nat); [apply RM_err1|].
-    apply RM_bind; [rm|intro]. apply RM_with_scope. apply RM_bind; [apply RM_bind_macro_args|intro; apply Hts].
+    apply RM_bind; [rm|intro]. apply RM_bind; [apply RM_eval_macro_args|intro]. apply RM_with_scope.
+    apply RM_bind; [apply RM_bind_macro_args|intro; apply Hts].
   - (* TPc *) apply RM_bind; [apply RM_eval_i64|intros v]. rm.
   - (* TSegment *)
     apply RM_bind; [apply RM_eval_string|intros s]. destruct s; [|apply RM_ret].
     destruct (existsb (N.eqb 46) t); [apply RM_err1|]. apply RM_bind; [apply RM_get|intro c].
     destruct (seg_get (segments c) t); [|apply RM_err1]. destruct b.
-    + apply RM_bind; [rm|intro]. apply RM_bind; [apply Hts|intro]. rm.
+    + apply RM_bind; [rm|intro]. apply RM_finally; [apply Hts|rm].
     + rm.
   - (* TTest *)
     apply RM_bind; [apply RM_current_target_pc|intros pc]. destruct pc; [|apply RM_ret].
